@@ -188,6 +188,93 @@ def scen_head_replaced_while_waiting(kind):
     return None
 
 
+def scen_loop_under_a_controlled_clock(kind):
+    """the run loop driven on THIS thread with a clock under control: a fake condition whose timed wait moves the clock forward by exactly the
+    timeout (an untimed wait ends the run).  Actions consume clock time.  Oracle (C31 / C35): a timed action starts exactly at its due time when
+    the loop is free at that time (never earlier; no later than the moment the loop could know it is due), so a periodic action of period p
+    whose work takes w < p is called at p, 2p, 3p, ... - the loop must not sleep past a due time because of a clock reading taken before the
+    actions of the round ran."""
+    from datetime import datetime, timedelta, timezone
+    import reactivex.scheduler as sch
+    base = datetime(2030, 1, 1, tzinfo=timezone.utc)
+    clock = [0.0]
+
+    class Stop(BaseException):
+        pass
+
+    class FakeCondition:
+        def __enter__(self):
+            return self
+
+        def __exit__(self, *a):
+            return False
+
+        def notify(self, n=1):
+            pass
+
+        notify_all = notify
+
+        def wait(self, timeout=None):
+            if timeout is None:
+                raise Stop()
+            clock[0] += float(timeout)
+            return False
+
+    class NoThread:
+        def start(self):
+            pass
+
+    class Controlled(sch.EventLoopScheduler):
+        @property
+        def now(self):
+            return base + timedelta(seconds=clock[0])
+
+    for period, work in ((1.0, 0.25), (0.5, 0.125), (2.0, 1.5)):
+        clock[0] = 0.0
+        s = Controlled(thread_factory=lambda target: NoThread())
+        s._condition = FakeCondition()
+        calls = []
+
+        box = {}
+
+        def tick(st, _calls=calls, _work=work, _box=box):
+            _calls.append((round(clock[0], 6), st))
+            clock[0] += _work
+            if len(_calls) >= 4:
+                _box["d"].dispose()  # stop ticking: the loop then finds nothing to wait for
+            return (st or 0) + 1
+        box["d"] = s.schedule_periodic(period, tick, 0)
+        try:
+            s.run()
+        except Stop:
+            pass
+        want = [(round(period * (k + 1), 6), k) for k in range(4)]
+        if calls != want:
+            return (f"periodic action (period {period}, work {work} per call) on the event loop under a controlled clock: called at (clock, state) {calls}, "
+                    f"expected {want}")
+    # two timed actions and an immediate one that takes time: each starts at its due time, the later one is not delayed by the earlier one's work
+    clock[0] = 0.0
+    s = Controlled(thread_factory=lambda target: NoThread())
+    s._condition = FakeCondition()
+    started = []
+
+    def mk(name, work):
+        def act(sc, st=None):
+            started.append((name, round(clock[0], 6)))
+            clock[0] += work
+        return act
+    s.schedule(mk("now", 0.25))
+    s.schedule_relative(1.0, mk("a", 0.25))
+    s.schedule_relative(2.0, mk("b", 0.0))
+    try:
+        s.run()
+    except Stop:
+        pass
+    if started != [("now", 0.0), ("a", 1.0), ("b", 2.0)]:
+        return f"timed actions on the event loop under a controlled clock started at {started}, expected now@0, a@1.0, b@2.0"
+    return None
+
+
 def scen_dispose(kind):
     from reactivex.internal.exceptions import DisposedException
     s = make(kind)
@@ -299,13 +386,16 @@ def scen_immediate(kind):
 SCENARIOS = {
     "C31": [("never_early_and_cancel", "eventloop"), ("submission_order", "eventloop"), ("dispose", "eventloop"), ("exit_if_empty", "-"),
             ("concurrent_schedulers", "eventloop"), ("never_early_and_cancel", "eventloop_exit"), ("cancel_within_batch", "eventloop"),
-            ("head_replaced_while_waiting", "eventloop")],
+            ("head_replaced_while_waiting", "eventloop"), ("loop_under_a_controlled_clock", "eventloop")],
+    "C35": [("loop_under_a_controlled_clock", "eventloop"), ("never_early_and_cancel", "eventloop"), ("cancel_within_batch", "eventloop")],
     "C34": [("never_early_and_cancel", k) for k in ("timeout", "newthread", "threadpool", "eventloop")] + [("immediate", "-"), ("dispose", "eventloop"),
-                                                                                                          ("cancel_within_batch", "eventloop"), ("head_replaced_while_waiting", "eventloop")],
+                                                                                                          ("cancel_within_batch", "eventloop"), ("head_replaced_while_waiting", "eventloop"),
+                                                                                                          ("loop_under_a_controlled_clock", "eventloop")],
 }
 FUN = {"cancel_within_batch": scen_cancel_within_batch, "head_replaced_while_waiting": scen_head_replaced_while_waiting,
        "never_early_and_cancel": scen_never_early_and_cancel, "submission_order": scen_submission_order, "dispose": scen_dispose,
-       "exit_if_empty": scen_exit_if_empty, "concurrent_schedulers": scen_concurrent_schedulers, "immediate": scen_immediate}
+       "exit_if_empty": scen_exit_if_empty, "concurrent_schedulers": scen_concurrent_schedulers, "immediate": scen_immediate,
+       "loop_under_a_controlled_clock": scen_loop_under_a_controlled_clock}
 
 REPLAY_TEMPLATE = '''#!/venv/bin/python
 """Replay of a violation of property {prop} (real-time schedulers).
